@@ -29,7 +29,7 @@ class Node:
         return self.kids
 
 
-def read_tlv(b, pos, end):
+def read_tlv(b, pos, end, lenient=False):
     """one definite-length TLV at pos; returns Node. tag is the full identifier as an int (class/constructed bits kept in the first octet)"""
     if pos + 2 > end:
         raise DerError("truncated header")
@@ -63,7 +63,9 @@ def read_tlv(b, pos, end):
         l = int.from_bytes(b[pos:pos + k], "big")
         pos += k
     if pos + l > end:
-        raise DerError("value overruns container")
+        if not lenient or pos >= end:
+            raise DerError("value overruns container")
+        l = end - pos       # a reader that walks into the value without checking the declared length sees the same fields
     return Node(tag, bool(t & 0x20), hstart, pos, pos + l, b)
 
 
@@ -103,13 +105,15 @@ class CMS:
 
     def __init__(self, blob):
         self.blob = blob
-        top = read_tlv(blob, 0, len(blob))
+        top = read_tlv(blob, 0, len(blob), lenient=True)
         self.top = top
         self.trailing = blob[top.end:]
-        ci = top.children()
-        if len(ci) < 2 or ci[0].tag != 6 or ci[0].content != OID_SIGNED_DATA or ci[1].tag != 0xa0:
-            raise DerError("not a SignedData ContentInfo")
-        sd = ci[1].children()[0]
+        ci = [read_tlv(blob, top.start, top.end)]
+        ci.append(read_tlv(blob, ci[0].end, top.end, lenient=True))
+        # the outer contentType OID and the length octets of the two wrappers are framing, not one of the protected components
+        if ci[0].tag != 6 or ci[1].tag != 0xa0:
+            raise DerError("not a ContentInfo")
+        sd = read_tlv(blob, ci[1].start, ci[1].end, lenient=True)
         if sd.tag != 0x30:
             raise DerError("SignedData is not a SEQUENCE")
         k = sd.children()
@@ -167,8 +171,9 @@ class CMS:
     def protected_ranges(self):
         """list of (start, end, what) inside the blob: the components the property names"""
         r = []
+        r.append((self.econtent_type.hstart, self.econtent_type.end, "econtent-type"))
         if self.econtent is not None:
-            r.append((self.encap.hstart, self.encap.end, "econtent"))
+            r.append((self.econtent.hstart, self.econtent.end, "econtent"))
         for s in self.signers:
             r.append((s["sid"].hstart, s["sid"].end, "sid"))
             r.append((s["digest_alg"].children()[0].hstart, s["digest_alg"].children()[0].end, "digest-alg-oid"))
@@ -181,7 +186,14 @@ class CMS:
 
     def view(self):
         """canonical protected content. Encoding forms of lengths (BER vs DER) are not part of it, values are."""
-        out = [("etype", self.econtent_type.content), ("econtent", self.econtent.der if self.econtent is not None else None)]
+        # PKCS#7 (RFC 2315 §9.3) digests only the contents octets of the content field: its identifier and length octets are framing
+        ec = None
+        if self.econtent is not None:
+            try:
+                ec = read_tlv(self.blob, self.econtent.start, self.econtent.end, lenient=True).content
+            except DerError:
+                ec = self.econtent.content
+        out = [("etype", self.econtent_type.content), ("econtent", ec)]
         for s in self.signers:
             out.append(("sid", s["sid"].der))
             out.append(("digest-alg", s["digest_alg"].children()[0].content))
